@@ -213,6 +213,12 @@ func GenWorldCfg(g *Rng, opt GenOpts) (World, map[string]any) {
 	cfg["name"] = Pick(g, []string{"verifpkg", "foo-bar", "lib.x+y", "a0"})
 	// every architecture of the documented GOARCH table
 	cfg["arch"] = Pick(g, []string{"amd64", "386", "arm64", "arm5", "arm6", "arm7", "all", "mips", "mipsle", "mips64le", "ppc64le", "s390", "amd64", "arm6"})
+	if x.feat("arch_outside_table", 0.15) {
+		// legal architecture names that are not keys of the packagers' GOARCH
+		// tables (micro-architecture suffixes, distribution names, newer
+		// ports): they pass through, or are translated, the same way every time
+		cfg["arch"] = Pick(g, []string{"arm64v8", "arm64be", "mips64le-n32", "mipsle-softfloat", "amd64v3", "arm7hf", "riscv64", "loong64", "ppc64", "x86_64", "aarch64", "noarch", "386sse2"})
+	}
 	cfg["version"] = Pick(g, []string{"1.2.3", "v2.0.1", "0.9.0-beta.1", "3.1.4+git5", "1.0", "2024.01.15"})
 	if x.feat("version_schema_none", 0.1) {
 		cfg["version_schema"] = "none"
@@ -394,6 +400,11 @@ func GenWorldCfg(g *Rng, opt GenOpts) (World, map[string]any) {
 	}
 	if opt.ManyFilesP > 0 && x.feat("many_files", opt.ManyFilesP) {
 		n := g.Range(400, 1300)
+		if x.feat("huge_tree", 0.25) {
+			// thousands of entries: the metadata members (.MTREE, control
+			// tarballs, rpm header) themselves become large
+			n = g.Range(4100, 6500)
+		}
 		for i := 0; i < n; i++ {
 			x.addFile(fmt.Sprintf("src/many/d%02d/f%04d", i%17, i), g.Intn(24), 0o644)
 		}
